@@ -809,6 +809,17 @@ func (g *gen) tiStream() (*hx.Stream, *hx.Stream) {
 	s.ShardMax = 400
 	sl := hx.NewStream("textinput_long", "model.Editors", "ti_case", "c17_ti_mismatches", "c17_ti_violations")
 	sl.ShardMax = 50
+	// violations = the property as stated (cursor column = width before the cursor whenever
+	// prompt + text fit); cases that fail it only under the guard of the recorded finding
+	// are reported as KNOWN-FINDING
+	for _, st := range []*hx.Stream{s, sl} {
+		st.Known = "c17_ti_known"
+		st.KnownClass = "textinput-sticky-offset"
+	}
+	// corpus of the finding, generated on every run: (a) the offset is sticky, (b) the
+	// 4-column scroll margin applies with the cursor at the end of a text that fits
+	g.runTI(s, "", []tiOp{{kind: "text", s: "aaaaaaaaaaaaaaaaaaaa"}, {kind: "draw", w: 10}, {kind: "draw", w: 80}}, true, "ti-finding-corpus")
+	g.runTI(s, "", []tiOp{{kind: "text", s: "aaaaaaa"}, {kind: "draw", w: 10}}, true, "ti-finding-corpus")
 	r := g.cfg.Rand
 	// hand-written: Draw in windows at most 4 columns wider than the prompt (the hang), and
 	// scrolling back and forth
